@@ -6,17 +6,25 @@ open Lean Bw Bw.J Bw.Blocks Bw.Diff Bw.Val Bw.Pipe
 
 /-- regex oracle table: pattern ↦ (compiles, text ↦ captures) -/
 def regexOf (j : Json) : Val.Regex × (IO.Ref Nat → Unit) :=
+  let texts : List Text := (arr j "regex_texts").filterMap (fun t => match t with | .str s => some s.toList | _ => none)
+  let cap (w : Json) : Option (Option LineMatch) :=
+    match w with
+    | .null => some none
+    | .arr w => match w.toList with
+      | [ws, we] => do pure (some ⟨(← nat? ws, ← nat? we), none⟩)
+      | [ws, we, vs, ve] => do pure (some ⟨(← nat? ws, ← nat? we), some (← nat? vs, ← nat? ve)⟩)
+      | _ => none
+    | _ => none
   let entries : List (Text × Bool × List (Text × Option LineMatch)) := (arr j "regex").map (fun e =>
-    (strD e "p", boolK e "ok" true, (arr e "m").filterMap (fun m =>
-      match m with
-      | .arr a => match a.toList with
-        | [.str t, .null] => some (t.toList, none)
-        | [.str t, .arr w] => match w.toList with
-          | [ws, we] => do pure (t.toList, some ⟨(← nat? ws, ← nat? we), none⟩)
-          | [ws, we, vs, ve] => do pure (t.toList, some ⟨(← nat? ws, ← nat? we), some (← nat? vs, ← nat? ve)⟩)
+    (strD e "p", boolK e "ok" true,
+      -- indexed form: outcomes aligned with `regex_texts`; legacy form: (text, outcome) pairs
+      ((texts.zip (arr e "mi")).filterMap (fun (t, w) => (cap w).map (fun c => (t, c)))) ++
+      (arr e "m").filterMap (fun m =>
+        match m with
+        | .arr a => match a.toList with
+          | [.str t, w] => (cap w).map (fun c => (t.toList, c))
           | _ => none
-        | _ => none
-      | _ => none)))
+        | _ => none)))
   ({ compiles := fun p => match entries.find? (fun e => e.1 = p) with
       | some e => e.2.1
       | none => true
@@ -28,12 +36,14 @@ def regexOf (j : Json) : Val.Regex × (IO.Ref Nat → Unit) :=
 
 /-- does the regex table cover (pattern, text)? used to flag oracle misses -/
 def regexCovers (j : Json) (p t : Text) : Bool :=
-  (arr j "regex").any (fun e => strD e "p" = p && (!(boolK e "ok" true) || (arr e "m").any (fun m =>
-    match m with
-    | .arr a => match a.toList with
-      | .str s :: _ => s.toList = t
-      | _ => false
-    | _ => false)))
+  (arr j "regex").any (fun e => strD e "p" = p && (!(boolK e "ok" true) ||
+    (arr j "regex_texts").any (fun s => match s with | .str s => s.toList = t | _ => false) ||
+    (arr e "m").any (fun m =>
+      match m with
+      | .arr a => match a.toList with
+        | .str s :: _ => s.toList = t
+        | _ => false
+      | _ => false)))
 
 def asyncOf (j : Json) : AsyncOracle := fun v path b =>
   -- outcome oracle entries are keyed by validator, file and the attribute's value (script path / condition)
